@@ -82,10 +82,13 @@ func (Engine) Generate(prop string, r *kit.Rand, tier string) *kit.Scenario[Conf
 	}
 	vers := r.Perm(9)[:nver]
 	maxSegs := 0
-	for _, v := range vers {
+	for vi, v := range vers {
 		o := Op{Op: "publish", Version: uint64(v + 1)}
 		if r.Chance(0.15) {
 			o.Version = kit.Pick(r, []uint64{255, 256, 65535, 65536, 1 << 40})
+		}
+		if vi == 0 && r.Chance(0.1) {
+			o.Version = 0 // a version number like any other
 		}
 		switch r.Weighted([]int{4, 4, 3, 2}) {
 		case 0:
@@ -134,7 +137,7 @@ func (Engine) Generate(prop string, r *kit.Rand, tier string) *kit.Scenario[Conf
 			case 7:
 				o.SOp = "rollback"
 			case 0:
-				o.SOp, o.SVer = "put", uint64(r.Range(1, 5))
+				o.SOp, o.SVer = "put", uint64(r.Range(0, 5))
 			case 1:
 				o.SOp = "remove"
 			case 2:
@@ -501,6 +504,7 @@ func (e Engine) run(ctx *kit.Ctx, sc *kit.Scenario[Config, Op], res *kit.Result,
 
 	published := [2]map[uint64][]byte{{}, {}}
 	newest := [2]uint64{}
+	has := [2]bool{} // something is published (version 0 is a version)
 	everPublished := [2]bool{}
 	storeLost := false // the producer lost its (in-memory) store at some point of the current fetch
 	incarnation := 0
@@ -539,6 +543,7 @@ func (e Engine) run(ctx *kit.Ctx, sc *kit.Scenario[Config, Op], res *kit.Result,
 			pstore = object.NewMemoryStore()
 			published = [2]map[uint64][]byte{{}, {}}
 			newest = [2]uint64{}
+			has = [2]bool{}
 			storeLost = true
 		}
 		fp = &simFace{out: &fromP}
@@ -606,9 +611,10 @@ func (e Engine) run(ctx *kit.Ctx, sc *kit.Scenario[Config, Op], res *kit.Result,
 			}
 			published[ob][o.Version] = content
 			everPublished[ob] = true
-			if o.Version > newest[ob] {
+			if !has[ob] || o.Version > newest[ob] {
 				newest[ob] = o.Version
 			}
+			has[ob] = true
 			res.Steps++
 		case "restart":
 			if o.DelayMs > 0 {
@@ -662,7 +668,7 @@ func (e Engine) run(ctx *kit.Ctx, sc *kit.Scenario[Config, Op], res *kit.Result,
 			maxSeg := 0
 			storeLost = false
 			for ob := 0; ob < 2; ob++ {
-				if newest[ob] == 0 {
+				if !has[ob] {
 					if everPublished[ob] {
 						// published once, lost with the in-memory store: the fetch must end, and not in success
 						fetches = append(fetches, &fetch{obj: ob, mustFail: true, nseg: 1})
@@ -1162,14 +1168,14 @@ func (e Engine) storeOp(ctx *kit.Ctx, o *Op, mem *object.MemoryStore, bolt *obje
 		}
 		a, b := get(true)
 		// acceptable: any stored packet under the prefix that has the maximal version; none if none is stored
-		maxV := uint64(0)
+		maxV, any := uint64(0), false
 		for k, v := range ms {
-			if strings.HasPrefix(k, o.SName+"/") && v.ver > maxV {
-				maxV = v.ver
+			if strings.HasPrefix(k, o.SName+"/") && (!any || v.ver > maxV) {
+				maxV, any = v.ver, true
 			}
 		}
 		ok := func(w string) bool {
-			if maxV == 0 {
+			if !any {
 				return w == ""
 			}
 			for k, v := range ms {
